@@ -4,13 +4,13 @@ package main
 // of functions by contract key.
 
 import (
-	"regexp"
 	"bufio"
 	"fmt"
 	"go/token"
 	"go/types"
 	"os"
 	"path/filepath"
+	"regexp"
 	"sort"
 	"strings"
 
@@ -20,20 +20,20 @@ import (
 )
 
 type Prog struct {
-	repo       string
-	verif      string
-	fset       *token.FileSet
-	pkgs       []*packages.Package
-	prog       *ssa.Program
-	byPath     map[string]*packages.Package
-	cs         *ContractSet
-	fnByKey    map[string]*ssa.Function
+	repo         string
+	verif        string
+	fset         *token.FileSet
+	pkgs         []*packages.Package
+	prog         *ssa.Program
+	byPath       map[string]*packages.Package
+	cs           *ContractSet
+	fnByKey      map[string]*ssa.Function
 	constGlobals map[string]*constGlobal
-	epochs     int
-	effFree    []string
-	modClasses map[string]map[string]string
-	modPath    string
-	allTypes   []*types.Package
+	epochs       int
+	effFree      []string
+	modClasses   map[string]map[string]string
+	modPath      string
+	allTypes     []*types.Package
 }
 
 func (p *Prog) allTypesPkgs() []*types.Package { return p.allTypes }
